@@ -207,8 +207,10 @@ func cryptoStub(in *Interp, fn *ssa.Function, pkg, name string) StubFn {
 			if !ok || p.Obj == nil {
 				panic(abort("unmodelled", "big.Int argument is not a pointer"))
 			}
-			if t, ok := in.bigVals[p.Obj]; ok {
-				return t
+			if k := in.bk(p); k != nil {
+				if t, ok := in.bigVals[k]; ok {
+					return t
+				}
 			}
 			return BVConst(0, 64)
 		}
@@ -216,11 +218,12 @@ func cryptoStub(in *Interp, fn *ssa.Function, pkg, name string) StubFn {
 			return func(in *Interp, fn *ssa.Function, a []Val) Val {
 				et := sig.Results().At(0).Type().(*types.Pointer).Elem()
 				o := in.newObj(in.zero(et), "big.Int")
-				in.bigVals[o] = a[0].(*Term)
+				k := in.bkw(Ptr{Obj: o})
+				in.bigVals[k] = a[0].(*Term)
 				if t := a[0].(*Term); t.IsConst {
-					in.bigConc[o] = big.NewInt(sext(t.C, 64))
+					in.bigConc[k] = big.NewInt(sext(t.C, 64))
 				} else {
-					in.bigOpaque[o] = true
+					in.bigOpaque[k] = true
 				}
 				return Ptr{Obj: o}
 			}
@@ -240,16 +243,45 @@ func cryptoStub(in *Interp, fn *ssa.Function, pkg, name string) StubFn {
 				}
 				if sig.Results().Len() == 1 && types.Identical(sig.Results().At(0).Type(), sig.Recv().Type()) {
 					// unmodelled operation on a non-concrete value: the receiver becomes opaque
-					in.bigForget(a[0])
-					delete(in.bigVals, a[0].(Ptr).Obj)
-					delete(in.bigField, a[0].(Ptr).Obj)
-					in.bigOpaque[a[0].(Ptr).Obj] = true
+					in.bigOpaque[in.bkw(a[0])] = true
 					return a[0]
 				}
 				panic(abort("unmodelled", "big.Int."+name+" on a non-concrete value"))
 			}
 		}
 		return nil
+	}
+	// ---- fft.NewDomain(m): only the size matters to gnark's bookkeeping: Cardinality is the next
+	// power of two >= m (c & (c-1) == 0, c >= m, c < 2m for m >= 1); generators etc. are zero values
+	if strings.HasSuffix(pkg, "/fr/fft") && rn == nil && name == "NewDomain" {
+		return func(in *Interp, fn *ssa.Function, a []Val) Val {
+			pt := fn.Signature.Results().At(0).Type().(*types.Pointer)
+			st := pt.Elem().Underlying().(*types.Struct)
+			sv := in.zero(pt.Elem()).(*StructV)
+			m := a[0].(*Term)
+			var c *Term
+			if m.IsConst {
+				v := uint64(1)
+				for v < m.C {
+					v <<= 1
+				}
+				c = BVConst(v, 64)
+			} else {
+				c = in.fresh("domain.Cardinality", BVSort(64))
+				one, zero := BVConst(1, 64), BVConst(0, 64)
+				in.assume(in.s.Eq(in.s.BVBin("bvand", c, in.s.BVBin("bvsub", c, one)), zero))
+				in.assume(in.s.Not(in.s.Eq(c, zero)))
+				in.assume(in.s.BVCmp("bvuge", c, m))
+				in.assume(in.s.Or(in.s.BVCmp("bvult", c, in.s.BVBin("bvadd", m, m)), in.s.BVCmp("bvule", m, one)))
+				in.assume(in.s.BVCmp("bvult", m, BVConst(1<<40, 64)))
+			}
+			for i := 0; i < st.NumFields(); i++ {
+				if st.Field(i).Name() == "Cardinality" {
+					sv.F[i] = c
+				}
+			}
+			return Ptr{Obj: in.newObj(sv, "fft.Domain")}
+		}
 	}
 	// ---- gnark-crypto/field/pool: recycled big.Int objects have ARBITRARY contents
 	if pkg == "github.com/consensys/gnark-crypto/field/pool" {
@@ -258,7 +290,7 @@ func cryptoStub(in *Interp, fn *ssa.Function, pkg, name string) StubFn {
 			return func(in *Interp, fn *ssa.Function, a []Val) Val {
 				et := fn.Signature.Results().At(0).Type().(*types.Pointer).Elem()
 				o := in.newObj(in.zero(et), "pooled big.Int")
-				in.bigOpaque[o] = true
+				in.bigOpaque[in.bkw(Ptr{Obj: o})] = true
 				return Ptr{Obj: o}
 			}
 		case "Put":
@@ -574,6 +606,31 @@ func cryptoStub(in *Interp, fn *ssa.Function, pkg, name string) StubFn {
 			return out
 		}
 	}
+	// fr.BigEndian.Element / fr.LittleEndian.Element: decoding of a canonical encoding
+	if rn != nil && (rn.Obj().Name() == "bigEndian" || rn.Obj().Name() == "littleEndian") && name == "Element" && isFieldPkg(pkg) {
+		return func(in *Interp, fn *ssa.Function, a []Val) Val {
+			arr := in.loadRef(a[len(a)-1].(Ptr)).(*ArrayV)
+			rk := "decode|"
+			for _, e := range arr.E {
+				rk += valKey(e) + ","
+			}
+			rt := fn.Signature.Results().At(0).Type()
+			z := in.zero(rt).(*ArrayV)
+			if ts, ok := in.memoTerms[rk]; ok && rn.Obj().Name() == "bigEndian" {
+				return TupleV{in.frValue(rt, ts[0]), IfaceV{}}
+			}
+			// arbitrary bytes: some value (a function of the bytes), or an invalid encoding
+			ts, ok := in.memoTerms["decoded|"+rn.Obj().Name()+rk]
+			if !ok {
+				ts = []*Term{in.cfg.Field.Fresh(in, "elem.decode", wordW(z))}
+				in.memoTerms["decoded|"+rn.Obj().Name()+rk] = ts
+			}
+			if in.ex.DecideFree(in, 2, "err:invalid element encoding") == 1 {
+				return TupleV{in.zero(rt), in.newError("invalid fr.Element encoding")}
+			}
+			return TupleV{in.frValue(rt, ts[0]), IfaceV{}}
+		}
+	}
 	// field element methods are handled by the field model; only byte conversions here
 	if rn != nil {
 		if _, isElem := fieldElemWords(rn); isElem && rn.Obj().Name() == "Element" {
@@ -586,6 +643,11 @@ func cryptoStub(in *Interp, fn *ssa.Function, pkg, name string) StubFn {
 					}
 					// the canonical encoding is a function of the value
 					ts := in.memoBytes(in.frRead(a[0]).S, n, "elembytes")
+					rk := "decode|"
+					for _, t := range ts {
+						rk += t.S + ","
+					}
+					in.memoTerms[rk] = []*Term{in.frRead(a[0])} // decoding these bytes gives the value back
 					if name == "Bytes" {
 						arr := &ArrayV{E: make([]Val, n)}
 						for i := range arr.E {
@@ -600,15 +662,14 @@ func cryptoStub(in *Interp, fn *ssa.Function, pkg, name string) StubFn {
 					if name == "BigInt" {
 						// the big.Int now carries this field value (read back by SetBigInt)
 						if bp, ok := a[1].(Ptr); ok && bp.Obj != nil {
-							in.bigField[bp.Obj] = in.frRead(a[0])
-							delete(in.bigVals, bp.Obj)
+							in.bigField[in.bkw(bp)] = in.frRead(a[0])
 						}
 						return a[1]
 					}
 					if name == "Exp" {
 						// x^k for a small constant exponent: repeated multiplication; otherwise opaque
 						if bp, ok := a[2].(Ptr); ok && bp.Obj != nil {
-							if k, ok := in.bigVals[bp.Obj]; ok && k.IsConst && k.C <= 64 {
+							if k, ok := in.bigVals[in.bk(bp)]; ok && in.bk(bp) != nil && k.IsConst && k.C <= 64 {
 								w := wordW(in.frArr(a[0]))
 								x := in.frRead(a[1])
 								r := in.cfg.Field.Const(1, w)
@@ -642,11 +703,19 @@ func cryptoStub(in *Interp, fn *ssa.Function, pkg, name string) StubFn {
 					}
 					if name == "SetBigInt" {
 						if bp, ok := a[1].(Ptr); ok && bp.Obj != nil {
-							t, ok := in.bigField[bp.Obj]
+							var t *Term
+							ok := false
+							if k := in.bk(bp); k != nil {
+								t, ok = in.bigField[k]
+							}
 							if !ok {
 								t = in.cfg.Field.Fresh(in, "elem.SetBigInt", wordW(in.frArr(a[0])))
-								if _, small := in.bigVals[bp.Obj]; !small {
-									in.bigField[bp.Obj] = t
+								k := in.bk(bp)
+								if k == nil {
+									k = in.bkw(bp)
+								}
+								if _, small := in.bigVals[k]; !small {
+									in.bigField[k] = t
 								}
 							}
 							in.frWrite(a[0].(Ptr), t)
